@@ -455,3 +455,78 @@ class EagerIndependentTrivial(Contract):
         if ctx.st:
             return [("declines_when_fn_depends_on_diag_var", result is None)]
         return [("constant_in_diag_var_means_sum_over_the_batch_variable", isinstance(result, FnT) and result.rec == ("reduce", "ADD", "i", "fn"))]
+
+
+# ==================================================================================================
+# C03: Funsor.sequential_reduce -- the sequential interpretation's reduction by explicit enumeration
+# ==================================================================================================
+class DomS:
+    def __init__(self, dtype, shape=(), size=None):
+        self.dtype, self.shape, self.size = dtype, tuple(shape), size
+
+    def __iter__(self):
+        if not isinstance(self.dtype, int) or self.shape:
+            raise TypeError("not iterable")
+        return iter([("num", k) for k in range(self.dtype)])
+
+
+@register
+class SequentialReduce(Contract):
+    """Funsor.sequential_reduce(op, reduced): nothing to reduce returns self; the reduced inputs that are integer scalars are
+    eliminated by enumeration -- the op-fold of self evaluated at EVERY joint value of those inputs, each exactly once -- and the
+    other reduced inputs (real or non-scalar) stay in a lazy Reduce around that fold; with no integer scalar among them the
+    method declines (None)."""
+
+    props = ("C03", "C01")
+    file = "funsor/terms.py"
+    qualname = "Funsor.sequential_reduce"
+    total = True
+    mutants = (("last value of each input skipped", "            for values in itertools.product(*(self.inputs[k] for k in eager_vars)):", "            for values in itertools.product(*(list(self.inputs[k])[:-1] or list(self.inputs[k]) for k in eager_vars)):"), ("non-enumerable inputs dropped", "                result = Reduce(op, result, frozenset(lazy_vars))", "                pass"))
+
+    def structures(self, tier):
+        names = ["i", "j", "x", "v"]
+        for r in range(0, 4):
+            for red in itertools.combinations(names, r):
+                yield "reduced=%s" % ("".join(red) or "-"), red
+
+    def build(self, p, red):
+        class Self:
+            def __call__(self_, **kw):
+                return ("at", tuple(sorted(kw.items())))
+
+        s = Self()
+        s.inputs = OrderedDict([("i", DomS(2)), ("j", DomS(3)), ("x", DomS("real")), ("v", DomS(2, (4,))), ("k", DomS(2))])
+
+        def op(a, b):
+            return ("op", a, b)
+
+        ns = dict(itertools=itertools, Reduce=lambda o, a, vs: ("Reduce", o, a, vs), isinstance=isinstance, int=int, dict=dict, zip=zip, frozenset=frozenset)
+        return Ctx(args=(s, op, frozenset(red)), namespace=ns, s=s, red=red, op=op)
+
+    def ensures(self, ctx, result):
+        red = ctx.red
+        if not red:
+            return [("nothing_to_reduce_returns_self", result is ctx.s)]
+        eager = [k for k in red if k in ("i", "j")]
+        lazy = [k for k in red if k not in ("i", "j")]
+        if not eager:
+            return [("declines_without_an_integer_scalar", result is None)]
+        body = result
+        lazy_ok = True
+        if lazy:
+            lazy_ok = isinstance(result, tuple) and result[0] == "Reduce" and result[1] is ctx.op and result[3] == frozenset(lazy)
+            body = result[2] if lazy_ok else None
+        leaves = []
+
+        def walk(t):
+            if isinstance(t, tuple) and t and t[0] == "op":
+                walk(t[1])
+                walk(t[2])
+            else:
+                leaves.append(t)
+
+        if body is not None:
+            walk(body)
+        sizes = {"i": 2, "j": 3}
+        exp = sorted(("at", tuple(sorted(zip(eager, [("num", v) for v in vals])))) for vals in itertools.product(*[range(sizes[k]) for k in eager]))
+        return [("other_reduced_inputs_stay_in_a_lazy_reduce", bool(lazy_ok)), ("every_joint_value_exactly_once", sorted(leaves) == exp)]
